@@ -29,6 +29,10 @@
 			   sizeof(uint8_t) +\
 			   2 * sizeof(char) + sizeof(time_t))
 
+/* zeroed room behind a record read back from a dump: more than any format
+ * that fits into a record can make the decoder consume */
+#define BB_CHUNK_SLACK (2 * QB_LOG_MAX_LEN * sizeof(long long))
+
 
 static void
 _blackbox_reload(int32_t target)
@@ -262,13 +266,20 @@ qb_log_blackbox_print_from_file(const char *bb_filename)
 	if (instance == NULL) {
 		return -EIO;
 	}
-	chunk = malloc(max_size);
+	/*
+	 * Nothing in a dump can be trusted. The record is read into a
+	 * buffer with a zeroed tail, so that strings are always terminated
+	 * and arguments a (damaged) format asks for, but the record does not
+	 * have, are read as zeroes from our own memory.
+	 */
+	chunk = malloc(max_size + BB_CHUNK_SLACK);
 	if (!chunk) {
 		goto cleanup;
 	}
 
 	do {
 		char *ptr;
+		char *chunk_end;
 		uint32_t lineno;
 		uint32_t tags;
 		uint8_t priority;
@@ -278,6 +289,7 @@ qb_log_blackbox_print_from_file(const char *bb_filename)
 		struct timespec timestamp;
 		time_t time_sec;
 		uint32_t msg_len;
+		size_t time_size;
 		struct tm *tm;
 		char message[QB_LOG_MAX_LEN];
 
@@ -293,6 +305,8 @@ qb_log_blackbox_print_from_file(const char *bb_filename)
 			err = -EIO;
 			goto cleanup;
 		}
+		memset(chunk + bytes_read, 0, BB_CHUNK_SLACK);
+		chunk_end = chunk + bytes_read;
 		ptr = chunk;
 
 		/* lineno */
@@ -309,7 +323,13 @@ qb_log_blackbox_print_from_file(const char *bb_filename)
 
 		/* function size & name */
 		memcpy(&fn_size, ptr, sizeof(uint32_t));
-		if ((fn_size + BB_MIN_ENTRY_SIZE) > bytes_read) {
+		ptr += sizeof(uint32_t);
+		time_size = have_timespecs ? sizeof(struct timespec) : sizeof(time_t);
+		/* what follows: the name, the time stamp, the message length
+		 * and a message of two characters at least */
+		if (fn_size > (size_t)(chunk_end - ptr) ||
+		    (size_t)(chunk_end - ptr) - fn_size <
+		    time_size + sizeof(uint32_t) + 2 * sizeof(char)) {
 #ifndef S_SPLINT_S
 			printf("ERROR Corrupt file: fn_size way too big %" PRIu32 "\n", fn_size);
 			err = -EIO;
@@ -323,10 +343,14 @@ qb_log_blackbox_print_from_file(const char *bb_filename)
 #endif /* S_SPLINT_S */
 			goto cleanup;
 		}
-		ptr += sizeof(uint32_t);
 
 		function = ptr;
 		ptr += fn_size;
+		if (function[fn_size - 1] != '\0') {
+			printf("ERROR Corrupt file: function name not terminated\n");
+			err = -EIO;
+			goto cleanup;
+		}
 
 		/* timestamp size & content */
 		if (have_timespecs) {
@@ -351,7 +375,8 @@ qb_log_blackbox_print_from_file(const char *bb_filename)
 		}
 		/* message length */
 		memcpy(&msg_len, ptr, sizeof(uint32_t));
-		if (msg_len > QB_LOG_MAX_LEN || msg_len <= 0) {
+		if (msg_len > QB_LOG_MAX_LEN || msg_len <= 0 ||
+		    msg_len > (size_t)(chunk_end - ptr) - sizeof(uint32_t)) {
 #ifndef S_SPLINT_S
 			printf("ERROR Corrupt file: msg_len out of bounds %" PRIu32 "\n", msg_len);
 			err = -EIO;
@@ -363,7 +388,9 @@ qb_log_blackbox_print_from_file(const char *bb_filename)
 
 		/* message content */
 		len = qb_vsnprintf_deserialize(message, QB_LOG_MAX_LEN, ptr);
-		assert(len > 0);
+		if (len <= 0 || len > QB_LOG_MAX_LEN - 1) {
+			len = QB_LOG_MAX_LEN - 1;
+		}
 		message[len] = '\0';
 		len--;
 		while (len > 0 && (message[len] == '\n' || message[len] == '\0')) {
